@@ -8,6 +8,11 @@
 //   reset tchar <n>              igris::ring<char>(n)   (adds read/write)
 //   reset cyc <n>                igris::cyclic_buffer<int>(n)
 //   reset rc <size>              struct ring_counter
+//   reset bring <size>           bytering_head + exactly sized heap block
+//   reset tempty                 default-constructed igris::ring<int> (only resize may follow)
+// one-line cases (round 3): reset widths | reset premain | reset hist <size> <script> |
+//   reset histt <n> <script> | reset longrun <size> <n> | reset sizezero <what> | reset movedpush <n>
+// Translation units: C03.cpp (this file: run), C03_life.cpp (lifeprobe / lifecount), C03_gen.cpp (gen).
 // Result line = "<ret> <state…>" (state = every counter the API reports).
 // Oracle = a std::deque / std::vector mirror maintained by the harness only
 // from the operations' arguments and the documented contract.
@@ -162,8 +167,12 @@ static void run_cring(const std::vector<std::string> &w, out &o)
         exact_buf src(d);
         size_t room = size - 1 - c.q.size();
         size_t acc = std::min(d.size(), room);
+        ring_head before = *r;
+        bytes snap = c.buf->vec();
         int rc = ring_write(r, c.cp(), (const char *)src.p, (unsigned)d.size());
         ret = S(rc);
+        if (content && acc == 0 && (before.head != r->head || before.tail != r->tail || snap != c.buf->vec()))
+            o.fail("write that stores nothing (full ring / length 0) changed the state");
         if (rc != (int)acc)
             o.fail("write of " + S(d.size()) + " with room " + S(room) + " returned " + S(rc));
         for (size_t i = 0; i < acc; i++) c.q.push_back(d[i]);
@@ -175,8 +184,13 @@ static void run_cring(const std::vector<std::string> &w, out &o)
         size_t n = strtoul(w[1].c_str(), 0, 10);
         exact_buf dst(n);
         size_t k = std::min(n, c.q.size());
+        ring_head before = *r;
+        bytes snap = c.buf->vec();
         int rc = ring_read(r, c.cp(), (char *)dst.p, (unsigned)n);
         size_t got = rc < 0 ? 0 : std::min((size_t)rc, n);
+        if (snap != c.buf->vec()) o.fail("read wrote to the ring buffer");
+        if (content && k == 0 && (before.head != r->head || before.tail != r->tail))
+            o.fail("read that delivers nothing (empty ring / length 0) changed the state");
         ret = S(rc) + " " + hex(dst.p, got);
         if (rc != (int)k)
             o.fail("read of " + S(n) + " with " + S(c.q.size()) + " stored returned " + S(rc));
